@@ -35,15 +35,24 @@ COMMON_KW_NAMES = ("src", "dst", "path", "target", "name", "filename", "file")
 
 
 @lru_cache(maxsize=8192)
+def _normalize_absolute_cached(path: str) -> str:
+    """Normalize an absolute path; the result only depends on the string, so it is cached."""
+    return os.path.normpath(path)
+
+
 def _normalize_path_cached(path: str) -> str:
     """Fast path normalization without resolving symlinks.
 
-    Uses os.path.abspath + normpath which avoids extra filesystem lookups from
-    Path.resolve(). Caching avoids repeated allocations for hot paths.
+    Equivalent to os.path.normpath(os.path.abspath(path)), which avoids extra
+    filesystem lookups from Path.resolve(). Caching avoids repeated allocations
+    for hot paths. Only absolute paths are cached: a relative path denotes another
+    file after every os.chdir, so it is resolved against the current working
+    directory on every call.
     """
     try:
-        # For performance, we avoid using Path here to prevent extra allocations.
-        return os.path.normpath(os.path.abspath(path))  # noqa: PTH100
+        if not os.path.isabs(path):
+            path = os.path.join(os.getcwd(), path)  # noqa: PTH109, PTH118
+        return _normalize_absolute_cached(path)
     except Exception:  # noqa: BLE001
         return str(path)
 
@@ -157,6 +166,7 @@ class FilesystemIsolation(ContextDecorator):
                 return original_func(*args, **kwargs)
 
             forget_path = self._get_arg(args, kwargs, forget_arg_idx)
+            abs_forget = None
             if forget_path:
                 abs_forget = self._abspath(forget_path)
                 # only allow modifications of previously-created (isolated) paths
@@ -167,14 +177,15 @@ class FilesystemIsolation(ContextDecorator):
             dst = self._get_arg(args, kwargs, record_dst_idx)
             if replaces_dst:
                 self._refuse_overwrite(dst)
-            # decided before the call: afterwards a pre-existing path looks like a new one
-            owned = [p for p in (rec, dst) if self._owns(p)]
+            # decided (and resolved) before the call: afterwards a pre-existing path looks like a
+            # new one, and a relative path may denote another file (the call can move the cwd)
+            owned = [self._abspath(p) for p in (rec, dst) if self._owns(p)]
 
             res = original_func(*args, **kwargs)
 
             # forget first: renaming a path onto itself must keep it recorded
             try:
-                self._forget(forget_path)
+                self._forget(abs_forget)
             except Exception:  # noqa: BLE001
                 _LOGGER.warning("Failed to forget path: %s", forget_path)
 
@@ -247,12 +258,14 @@ class FilesystemIsolation(ContextDecorator):
             abs_path = self._abspath(path_self)
             if abs_path not in self._created:
                 raise PermissionError(f"Attempted to rename/replace non-isolated path: {abs_path}")
-            owned = self._owns(target)
+            # resolved before the call: renaming the working directory changes what a relative
+            # target denotes afterwards
+            owned = self._abspath(target) if self._owns(target) else None
             res = original_func(path_self, target)
             try:
-                self._forget(path_self)
-                if owned:
-                    self._record_created(res)
+                self._forget(abs_path)
+                if owned is not None:
+                    self._record_created(owned)
             except Exception:  # noqa: BLE001
                 _LOGGER.warning(
                     "Failed to update bookkeeping for rename/replace: %s -> %s", path_self, target
